@@ -88,9 +88,14 @@ Proof. destruct q as [a b c d e f]. cbn [q_sarif_unsanitized]. intros ->. reflex
 Definition clean (s : string) : Prop := sanitize s = s.
 Definition viol_clean (v : viol) : Prop := clean (v_file v) /\ clean (v_msg v).
 
+(* Gen fact (source as repaired by d9a5951): the SARIF templates pass path and message through the sanitiser themselves,
+   so the document shows the same strings as JSON / text for EVERY quirk vector, the faithful one included *)
+Lemma sarif_core_source q v : sarif_core q v = san_core v.
+Proof. destruct q as [[] b c d e f]; reflexivity. Qed.
+
 Theorem sarif_roundtrip_exact q ver vs :
-  q_sarif_unsanitized q = false -> decode_sarif (render_sarif q ver vs) = Some (map san_core vs).
-Proof. intros H. rewrite sarif_roundtrip. f_equal. apply map_ext. intro. now apply sarif_core_ideal. Qed.
+  decode_sarif (render_sarif q ver vs) = Some (map san_core vs).
+Proof. rewrite sarif_roundtrip. f_equal. apply map_ext. intro. apply sarif_core_source. Qed.
 
 Lemma sarif_core_clean q v : viol_clean v -> sarif_core q v = san_core v.
 Proof.
@@ -107,14 +112,8 @@ Qed.
 
 (* JSON and SARIF describe the same list *)
 Theorem json_sarif_agree q ver vs :
-  q_sarif_unsanitized q = false ->
   decode_sarif (render_sarif q ver vs) = option_map fst (decode_json (render_json vs)).
-Proof. intros H. now rewrite sarif_roundtrip_exact, json_roundtrip. Qed.
-
-Theorem json_sarif_agree_clean_partial q ver vs :
-  Forall viol_clean vs ->
-  decode_sarif (render_sarif q ver vs) = option_map fst (decode_json (render_json vs)).
-Proof. intros H. now rewrite sarif_roundtrip_clean_partial, json_roundtrip. Qed.
+Proof. now rewrite sarif_roundtrip_exact, json_roundtrip. Qed.
 
 (* ---------- SARIF: rules ---------- *)
 Lemma nodup_str_NoDup l : NoDup l -> nodup_str l = true.
